@@ -34,7 +34,7 @@ class AutomationEnvelope:
         self.is_finished = False
         if curve == "linear":
             self.envelope[0:envelope_ticks] = np.linspace(0, 1, envelope_ticks)
-            self.envelope[-envelope_ticks:] = np.linspace(1, 0, envelope_ticks)
+            self.envelope[total_ticks - envelope_ticks:] = np.linspace(1, 0, envelope_ticks)
             # normalise envelope so that, when applied to a curve, the total
             # magnitude of the curve does not change.
             mean_value_per_tick = np.sum(self.envelope) / (len(self.envelope) if len(self.envelope) else 1)
